@@ -279,7 +279,7 @@ func (c *Cluster) lockstepRound(scripted []*Actor) {
 			c.FaultSteps++
 		}
 	}
-	if c.Cfg.Profile == "twins-lockstep" && c.Rng.Chance(1, 6) {
+	if c.Cfg.Profile == "twins-lockstep" && !c.NoFaults && c.Rng.Chance(1, 6) {
 		// Twins-style per-round partition
 		groups := make([]int, len(c.Actors))
 		for i := range groups {
